@@ -114,6 +114,19 @@ def run(pid, tier, seed):
                 dist["net/" + c.get("kind", name)] += 1
                 if c.get("panic") or c.get("crashed"):
                     hit("net_%d.json" % total, dict(what="transport panics on input from a peer", case=c), "transport panics (%s)" % c.get("kind", name))
+        # clients that stall in every state of the connection set-up and keep their socket open must not wedge the node
+        from checks import net as net_engine
+        cases = jsonl(chk, "net", ["stalled", "-seed", str(seed)], "stalled") or []
+        for c in cases:
+            if c.get("kind") == "stalledclients":
+                total += len(c.get("states", []))
+                for st in c.get("states", []):
+                    dist["net/stalled/" + st["state"]] += 1
+        if not any(c.get("kind") == "stalledclients" for c in cases):
+            hit("stalled_clients_missing.json", dict(what="the stalled-clients scenario produced no record", cases=cases[:3]),
+                "stalled clients: no record")
+        for name, content, what in net_engine.stalled_hits(cases):
+            hit(name, content, what)
     chk.cov["evaluations"] = total
     chk.cov["distinct_nontrivial"] = len(dist)
     chk.cov["rule"] = ("every engine's malformed / adversarial stream executed on the real code under recover and a watchdog: dispatcher of a real "
